@@ -66,6 +66,14 @@ type clEngine struct {
 	forced   bool   // the current op is part of a scripted sequence
 	lastNew  uint64 // id created by the last successful create / add
 	opClass  string
+	mag      int      // amount magnitude class of the history: amounts are multiplied by 10^mag (18-decimals assets: liquidity up to >= 10^24)
+	scale    osmomath.Dec // spread-reward accumulator scaling factor of the pool (one = pre-migration)
+	ifactor  osmomath.Dec // incentive accumulator scaling factor of the pool (one = pre-migration, "unscaled")
+	swapClass    string   // directed class of the next swap: "land" (ends exactly on an initialised tick), "limit" (partial fill at the price limit)
+	swapOverride *swapOv  // scripted swap: kind, direction, (amount)
+	lastSwap     swapRes
+	landedNow    bool     // the last swap ended exactly on an initialised tick
+	wantSolvency bool     // run the everybody-withdraws oracle right after this op
 }
 
 // scriptStep: one op of a directed sequence (property C08: accrue -> partial withdraw / add / transfer -> (swap) -> claim
@@ -73,6 +81,7 @@ type clEngine struct {
 type scriptStep struct {
 	kind int
 	id   uint64
+	arg  int // swaps: direction (bits 0-1: 0 random, 1 zero-for-one, 2 one-for-zero) and kind (bits 2-3: 0 random, 1 exact-in, 2 exact-out); create: 1 = full range
 }
 
 const (
@@ -84,7 +93,25 @@ const (
 	kICollect  = 86
 	kIncentive = 90
 	kAdvance   = 93
+	// directed ops (scripts only; outside the 0..99 range of the random draw)
+	kSwapLand    = 200 // swap that ends exactly on an initialised tick
+	kSwapLimit   = 201 // swap larger than the pool can absorb (partial fill at the price limit)
+	kSwapBack    = 202 // swap the proceeds of the previous swap straight back (exact-in, opposite direction)
+	kSolvency    = 203 // everybody-withdraws oracle (no op)
+	kCreate      = 204
+	kIncentiveDry = 205 // incentive record that runs dry within the next time advance
+	kAdvanceLong = 206 // idle jump that overshoots the end of the running records
 )
+
+// replay: the op lines of the current history (what `./check --replay` / the Lean driver would be fed), shortened to the
+// pool set-up and the most recent ops so that it fits the replay file.
+func (e *clEngine) replay() string {
+	h := e.o.hist
+	if len(h) > 14 {
+		h = append(append([]string{}, h[:3]...), append([]string{fmt.Sprintf("... %d ops ...", len(h)-13)}, h[len(h)-10:]...)...)
+	}
+	return "replay: " + strings.Join(h, " ; ")
+}
 
 // liqUnit: rounding loss of one truncated division by liquidity, in whole tokens (+1): growth per unit of liquidity is
 // truncated at 18 decimals, so up to (liquidity / 10^18) units are lost per division in pools with scaling factor one.
@@ -364,6 +391,14 @@ func (e *clEngine) randTick() int64 {
 }
 
 func (e *clEngine) randAmount() *big.Int {
+	a := e.randAmountBase()
+	if e.mag > 0 && e.r.Intn(3) != 0 {
+		a.Mul(a, pow10(e.mag))
+	}
+	return a
+}
+
+func (e *clEngine) randAmountBase() *big.Int {
 	switch e.r.Intn(6) {
 	case 0:
 		return big.NewInt(int64(1 + e.r.Intn(10)))
@@ -383,6 +418,7 @@ func (e *clEngine) randAmount() *big.Int {
 func runCL(t *testing.T, seed int64, n int, dir string) {
 	r := rand.New(rand.NewSource(seed))
 	o := NewOut(dir)
+	o.keepHist = true
 	h := newH(t)
 	spacings := []int64{1, 10, 100, 1000}
 	done := 0
@@ -398,9 +434,13 @@ func runCL(t *testing.T, seed int64, n int, dir string) {
 		e.feesOut = [2]*big.Int{new(big.Int), new(big.Int)}
 		e.spacing = spacings[r.Intn(4)]
 		e.spf = cltypes.AuthorizedSpreadFactors[r.Intn(len(cltypes.AuthorizedSpreadFactors))]
+		if r.Intn(5) == 0 { // zero spread factor more often than 1 in 7: every step amount is then a whole number and swaps can end EXACTLY on a tick
+			e.spf = osmomath.ZeroDec()
+		}
+		e.mag = []int{0, 0, 6, 12}[r.Intn(4)]
 		e.accs = h.TestAccs[:3]
 		for _, a := range e.accs {
-			h.FundAcc(a, sdk.NewCoins(sdk.NewCoin(clDenom0, osmomath.NewIntFromBigInt(pow10(30))), sdk.NewCoin(clDenom1, osmomath.NewIntFromBigInt(pow10(30))), sdk.NewCoin("uosmo", osmomath.NewIntFromBigInt(pow10(20)))))
+			h.FundAcc(a, sdk.NewCoins(sdk.NewCoin(clDenom0, osmomath.NewIntFromBigInt(pow10(30+e.mag))), sdk.NewCoin(clDenom1, osmomath.NewIntFromBigInt(pow10(30+e.mag))), sdk.NewCoin("uosmo", osmomath.NewIntFromBigInt(pow10(20)))))
 		}
 		// pools on either side of the accumulator scaling migration: with the threshold moved past the next pool id
 		// the pool uses scaling factor one (forfeited claim dust then goes back into the accumulator)
@@ -421,17 +461,36 @@ func runCL(t *testing.T, seed int64, n int, dir string) {
 			t.Fatal(err)
 		}
 		e.inc.t0 = h.Ctx.BlockTime()
+		e.scale, e.ifactor = scale, ifactor
 		o.Emit(fmt.Sprintf("clp reset %d %s %s %s %d", e.spacing, e.spf.BigInt(), scale.BigInt(), ifactor.BigInt(), 4), "ok", true)
 		o.Count("pool.incfactor" + ifactor.String()[:4])
 		o.Count("pool.scale" + scale.String()[:4])
 		o.Count(fmt.Sprintf("pool.spacing%d", e.spacing))
+		o.Count(fmt.Sprintf("pool.magnitude1e%d", e.mag))
+		if e.spf.IsZero() {
+			o.Count("pool.spread-factor-zero")
+		}
+		e.openingScript()
 		nops := 25 + r.Intn(50)
 		for i := 0; i < nops && done < n; i++ {
 			done++
 			e.opn++
+			e.landedNow, e.wantSolvency = false, false
 			e.step()
+			// C07 right after the op (in particular right after a swap that ended exactly on an initialised tick)
+			e.oracleBookkeeping()
+			// partial fills at the price limit from this state, on a discarded branch (more often while the history is young:
+			// few ticks, so that the final integer conversion is not buried under the per-step roundings)
+			if len(e.pos) > 0 && (e.opn <= 12 || e.r.Intn(4) == 0) {
+				e.probeLimit(e.r.Intn(4) != 0, e.r.Intn(3) != 0)
+				if e.opn <= 12 {
+					e.probeLimit(e.r.Intn(4) != 0, e.r.Intn(3) != 0)
+				}
+			}
+			reimported := false
 			if e.r.Intn(12) == 0 {
 				e.exportImport()
+				reimported = true
 			}
 			o.Emit("clp fdump", e.dumpFeesImpl(), true)
 			o.Emit("clp idump", e.dumpIncImpl(), true)
@@ -440,8 +499,10 @@ func runCL(t *testing.T, seed int64, n int, dir string) {
 			if e.r.Intn(3) == 0 {
 				o.Emit("clp dump", e.dumpImpl(), true)
 			}
-			e.oracleBookkeeping()
-			if e.r.Intn(6) == 0 {
+			if reimported {
+				e.oracleBookkeeping()
+			}
+			if e.wantSolvency || e.landedNow && e.r.Intn(2) == 0 || e.r.Intn(6) == 0 {
 				e.oracleSolvency()
 			}
 		}
@@ -455,8 +516,8 @@ func (e *clEngine) step() {
 	// LP/trader accounts never run dry (the model has no account balances)
 	for _, a := range e.accs {
 		for _, d := range []string{clDenom0, clDenom1, "uosmo"} {
-			if e.bal(a, d).Cmp(pow10(29)) < 0 {
-				e.h.FundAcc(a, sdk.NewCoins(sdk.NewCoin(d, osmomath.NewIntFromBigInt(pow10(30)))))
+			if e.bal(a, d).Cmp(pow10(29+e.mag)) < 0 {
+				e.h.FundAcc(a, sdk.NewCoins(sdk.NewCoin(d, osmomath.NewIntFromBigInt(pow10(30+e.mag)))))
 			}
 		}
 	}
@@ -465,9 +526,11 @@ func (e *clEngine) step() {
 	o := e.o
 	kind := e.r.Intn(100)
 	e.forced, e.forcePos = false, 0
+	arg := 0
 	if len(e.queue) > 0 {
 		st := e.queue[0]
 		e.queue = e.queue[1:]
+		arg = st.arg
 		id := st.id
 		if id == ^uint64(0) {
 			id = e.lastNew
@@ -484,6 +547,62 @@ func (e *clEngine) step() {
 		} else {
 			e.queue = nil // the position is gone (e.g. the scripted op failed): drop the rest of the sequence
 		}
+	} else if len(e.pos) > 0 && e.r.Intn(28) == 0 {
+		// directed sequence: a swap that ends EXACTLY on an initialised tick, then further swaps / LP ops, then everybody withdraws
+		dir := 1 + e.r.Intn(2)
+		e.queue = []scriptStep{{kind: kSwapLand, arg: dir | e.r.Intn(3)<<2}}
+		switch e.r.Intn(4) {
+		case 0: // on along the same direction, landing again
+			e.queue = append(e.queue, scriptStep{kind: kSwapLand, arg: dir | e.r.Intn(3)<<2})
+		case 1: // straight back
+			e.queue = append(e.queue, scriptStep{kind: kSwapBack})
+		case 2:
+			e.queue = append(e.queue, scriptStep{kind: kSwap})
+		}
+		switch e.r.Intn(4) {
+		case 0:
+			e.queue = append(e.queue, scriptStep{kind: kWithdraw, id: ^uint64(0) - 1})
+		case 1:
+			e.queue = append(e.queue, scriptStep{kind: kAdd, id: ^uint64(0) - 1})
+		case 2:
+			e.queue = append(e.queue, scriptStep{kind: kCreate})
+		}
+		if e.r.Intn(2) == 0 {
+			e.queue = append(e.queue, scriptStep{kind: kSwap})
+		}
+		e.queue = append(e.queue, scriptStep{kind: kSolvency})
+		o.Count("script.land-sequence")
+		st := e.queue[0]
+		e.queue = e.queue[1:]
+		kind, arg, e.forced = st.kind, st.arg, true
+	} else if len(e.pos) > 0 && e.r.Intn(28) == 0 {
+		// directed sequence: incentive record(s) that run dry -> time jump overshooting their end -> (swap) -> claim / withdraw / add -> everybody withdraws
+		e.queue = []scriptStep{{kind: kIncentiveDry}}
+		for e.r.Intn(2) == 0 && len(e.queue) < 3 { // several records (same denom and uptime, ending at different moments)
+			e.queue = append(e.queue, scriptStep{kind: kIncentiveDry, arg: 1})
+		}
+		if e.r.Intn(3) == 0 { // a first advance that does not yet exhaust everything
+			e.queue = append(e.queue, scriptStep{kind: kAdvance})
+		}
+		if e.r.Intn(3) == 0 {
+			e.queue = append(e.queue, scriptStep{kind: kSwap})
+		}
+		e.queue = append(e.queue, scriptStep{kind: kAdvanceLong})
+		switch e.r.Intn(5) {
+		case 0:
+			e.queue = append(e.queue, scriptStep{kind: kWithdraw, id: ^uint64(0) - 1})
+		case 1:
+			e.queue = append(e.queue, scriptStep{kind: kAdd, id: ^uint64(0) - 1})
+		case 2:
+			e.queue = append(e.queue, scriptStep{kind: kSwap})
+		default:
+			e.queue = append(e.queue, scriptStep{kind: kICollect, id: ^uint64(0) - 1})
+		}
+		e.queue = append(e.queue, scriptStep{kind: kSolvency})
+		o.Count("script.dry-incentive-sequence")
+		st := e.queue[0]
+		e.queue = e.queue[1:]
+		kind, arg, e.forced = st.kind, st.arg, true
 	} else if len(e.pos) > 0 && e.r.Intn(9) == 0 {
 		// directed sequence on one position, preferably one that is in range now (so that the first swap accrues to it)
 		q := e.anyPos()
@@ -492,21 +611,21 @@ func (e *clEngine) step() {
 			q = e.anyPos()
 		}
 		var mid scriptStep
-		last := scriptStep{kCollect, q.id}
+		last := scriptStep{kind: kCollect, id: q.id}
 		if e.r.Intn(3) == 0 {
 			// incentive sequence: record -> time -> (swap, maybe crossing) -> time -> collect incentives / withdraw / add on q
 			var fin scriptStep
 			switch e.r.Intn(4) {
 			case 0:
-				fin = scriptStep{kWithdraw, q.id}
+				fin = scriptStep{kind: kWithdraw, id: q.id}
 			case 1:
-				fin = scriptStep{kAdd, q.id}
+				fin = scriptStep{kind: kAdd, id: q.id}
 			default:
-				fin = scriptStep{kICollect, q.id}
+				fin = scriptStep{kind: kICollect, id: q.id}
 			}
-			e.queue = []scriptStep{{kIncentive, 0}, {kAdvance, 0}, {kSwap, 0}, {kAdvance, 0}, fin}
+			e.queue = []scriptStep{{kind: kIncentive, id: 0}, {kind: kAdvance, id: 0}, {kind: kSwap, id: 0}, {kind: kAdvance, id: 0}, fin}
 			if e.r.Intn(2) == 0 {
-				e.queue = append(e.queue, scriptStep{kAdvance, 0}, scriptStep{kICollect, ^uint64(0) - 1})
+				e.queue = append(e.queue, scriptStep{kind: kAdvance, id: 0}, scriptStep{kind: kICollect, id: ^uint64(0) - 1})
 			}
 			o.Count("script.incentive-sequence")
 			st := e.queue[0]
@@ -516,22 +635,22 @@ func (e *clEngine) step() {
 		}
 		switch e.r.Intn(3) {
 		case 0:
-			mid = scriptStep{kWithdraw, q.id}
+			mid = scriptStep{kind: kWithdraw, id: q.id}
 			o.Count("script.accrue-partialwithdraw-claim")
 		case 1:
-			mid = scriptStep{kAdd, q.id}
-			last = scriptStep{kCollect, ^uint64(0)}
+			mid = scriptStep{kind: kAdd, id: q.id}
+			last = scriptStep{kind: kCollect, id: ^uint64(0)}
 			o.Count("script.accrue-add-claim")
 		default:
-			mid = scriptStep{kTransfer, q.id}
+			mid = scriptStep{kind: kTransfer, id: q.id}
 			o.Count("script.accrue-transfer-claim")
 		}
-		e.queue = []scriptStep{{kSwap, 0}, mid}
+		e.queue = []scriptStep{{kind: kSwap, id: 0}, mid}
 		if e.r.Intn(2) == 0 {
-			e.queue = append(e.queue, scriptStep{kSwap, 0})
+			e.queue = append(e.queue, scriptStep{kind: kSwap, id: 0})
 		}
 		if e.r.Intn(4) == 0 { // a second partial withdrawal before the claim: the parked rewards must survive another update
-			e.queue = append(e.queue, scriptStep{kWithdraw, last.id})
+			e.queue = append(e.queue, scriptStep{kind: kWithdraw, id: last.id})
 		}
 		e.queue = append(e.queue, last)
 		st := e.queue[0]
@@ -539,11 +658,54 @@ func (e *clEngine) step() {
 		kind, e.forced = st.kind, true
 	}
 scripted:
-	if len(e.pos) == 0 {
+	fullRange, smallFirst := false, false
+	if kind == kCreate {
+		kind, fullRange, smallFirst = 0, arg >= 1, arg == 2
+	}
+	if len(e.pos) == 0 && kind != 0 {
 		kind = 0
 		e.queue = nil
 	}
 	switch {
+	case kind == kSolvency: // no op: the everybody-withdraws oracle runs right after (runCL)
+		e.opClass = "solvency"
+		e.wantSolvency = true
+	case kind == kSwapLand || kind == kSwapLimit || kind == kSwapBack:
+		e.opClass = "swap"
+		ov := &swapOv{ogi: e.r.Intn(2) == 0, zfo: e.r.Intn(2) == 0}
+		if kind != kSwapBack {
+			if arg&3 != 0 {
+				ov.zfo = arg&3 == 1
+			}
+			if arg>>2&3 != 0 {
+				ov.ogi = arg>>2&3 == 1
+			}
+		}
+		switch kind {
+		case kSwapLand:
+			ov.class = "land"
+		case kSwapLimit:
+			ov.class = "limit"
+		default:
+			if e.lastSwap.ok && e.lastSwap.got.Sign() > 0 { // all / a half / a third of the proceeds
+				back := new(big.Int).Quo(e.lastSwap.got, big.NewInt(int64(1+arg%3)))
+				if back.Sign() > 0 {
+					ov.ogi, ov.zfo, ov.class, ov.amt = true, !e.lastSwap.zfo, "given", back
+				}
+			}
+		}
+		e.swapOverride = ov
+		e.swap()
+	case kind == kIncentiveDry:
+		e.opClass = "create-incentive"
+		if arg == 1 {
+			e.createIncentiveClass("same-denom")
+		} else {
+			e.createIncentiveClass("dry")
+		}
+	case kind == kAdvanceLong:
+		e.opClass = "advance"
+		e.advanceTime(e.overshootDuration())
 	case kind < 28: // create position (sometimes as twin / k-multiple of the previous one)
 		e.opClass = "create"
 		owner := e.r.Intn(3)
@@ -557,11 +719,15 @@ scripted:
 			upper = lower + e.spacing*int64(1+e.r.Intn(100))
 		}
 		a0, a1 = e.randAmount(), e.randAmount()
-		if len(e.pos) == 0 && e.r.Intn(20) != 0 { // sensible first position: wide, balanced around price a1/a0
-			a0 = new(big.Int).Mul(big.NewInt(int64(1+e.r.Intn(1000))), pow10(9))
-			a1 = new(big.Int).Mul(big.NewInt(int64(1+e.r.Intn(1000))), pow10(9))
+		if len(e.pos) == 0 && (fullRange || e.r.Intn(20) != 0) { // sensible first position: wide, balanced around price a1/a0
+			a0 = new(big.Int).Mul(big.NewInt(int64(1+e.r.Intn(1000))), pow10(9+e.mag))
+			a1 = new(big.Int).Mul(big.NewInt(int64(1+e.r.Intn(1000))), pow10(9+e.mag))
+			if smallFirst {
+				a0 = new(big.Int).Mul(big.NewInt(int64(1+e.r.Intn(1000))), pow10(3+e.r.Intn(5)))
+				a1 = new(big.Int).Mul(big.NewInt(int64(1+e.r.Intn(1000))), pow10(3+e.r.Intn(5)))
+			}
 			lower, upper = cltypes.MinInitializedTick, cltypes.MaxTick
-			if e.r.Intn(3) == 0 {
+			if !fullRange && e.r.Intn(3) == 0 {
 				lower, upper = -100000*e.spacing, 100000*e.spacing
 			}
 		}
@@ -676,7 +842,11 @@ scripted:
 		e.addDust(-1, e.liqUnit())
 		e.incAfter(snap, q.owner, "add", lmid)
 		e.posGone(q.id)
-		e.pos[resp.PositionId] = &clPos{id: resp.PositionId, owner: q.owner, lower: np.LowerTick, upper: np.UpperTick, liq: np.Liquidity.BigInt()}
+		// the successor is in range whenever the current tick is inside its range (it then also receives the claim dust that
+		// other positions' claims put back into the accumulator on unscaled pools, without any swap)
+		curNow := e.pool().GetCurrentTick()
+		e.pos[resp.PositionId] = &clPos{id: resp.PositionId, owner: q.owner, lower: np.LowerTick, upper: np.UpperTick, liq: np.Liquidity.BigInt(),
+			everInRange: q.everInRange || np.LowerTick <= curNow && curNow < np.UpperTick}
 		e.posCreated(resp.PositionId)
 		e.lastNew = resp.PositionId
 	case kind < 80: // swap
@@ -748,17 +918,23 @@ scripted:
 	case kind < 90: // collect incentives
 		e.opClass = "collect-incentives"
 		e.collectIncentivesOp()
-	case kind < 93: // create incentive record (random authorised uptime, rate, amount, start now or later; own denom)
+	case kind < 93: // create incentive record (random authorised uptime, rate, amount, start now or later; own or shared denom)
 		e.opClass = "create-incentive"
-		e.createIncentive()
+		e.createIncentiveClass("")
 	case kind < 98: // block time advance (seconds .. days), also while no liquidity is active
 		e.opClass = "advance"
 		d := time.Duration(1+e.r.Intn(3600)) * time.Second
-		switch e.r.Intn(5) {
+		switch e.r.Intn(8) {
 		case 0:
 			d = time.Duration(1+e.r.Intn(48)) * time.Hour
 		case 1:
 			d = time.Duration(1+e.r.Intn(90)) * time.Second
+		case 2: // long idle jump
+			d = time.Duration(1+e.r.Intn(30)) * 24 * time.Hour
+		case 3: // sub-second parts
+			d = time.Duration(1 + e.r.Int63n(int64(3*time.Second)))
+		case 4: // just past / just short of the moment the next record runs dry
+			d = e.overshootDuration()
 		}
 		e.advanceTime(d)
 	default: // transfer a position
@@ -844,3 +1020,37 @@ func (e *clEngine) create(owner int, lower, upper int64, a0, a1 *big.Int) (uint6
 
 func bd(raw *big.Int) osmomath.BigDec { return osmomath.NewBigDecFromBigIntWithPrec(raw, 36) }
 func sd(raw *big.Int) osmomath.Dec    { return osmomath.NewDecFromBigIntWithPrec(raw, 18) }
+
+// openingScript: directed opening of a history.  In a third of the histories the first position spans the whole tick range
+// and is the ONLY one while the pool is drained to the price limit and back (one loop iteration per drain: the swap stops at
+// the min / max sqrt price with part of the specified amount left = partial fill), in both directions and kinds.
+func (e *clEngine) openingScript() {
+	if e.r.Intn(3) != 0 {
+		return
+	}
+	// arg 2: full range with SMALL liquidity (amounts 10^3..10^10): the in-amount that drains the pool towards the minimum
+	// price is liquidity x 10^6, and only below ~10^16 is every rounding of the spread charge (a ratio rounded at 18 decimals)
+	// worth less than one unit, so that the FINAL integer conversion of the charged amount is what decides
+	first := scriptStep{kind: kCreate, arg: 1}
+	if e.r.Intn(4) != 0 {
+		first.arg = 2
+	}
+	d := 1
+	if e.r.Intn(4) == 0 {
+		d = 2
+	}
+	e.queue = []scriptStep{first, {kind: kSwapLimit, arg: d | 1<<2}, {kind: kSwapBack, arg: e.r.Intn(3)}}
+	for i := 0; i < 2+e.r.Intn(3); i++ {
+		dd := d
+		if e.r.Intn(4) == 0 {
+			dd = 3 - d
+		}
+		kk := 1
+		if e.r.Intn(5) == 0 {
+			kk = 2 // exact-out request beyond what the pool holds
+		}
+		e.queue = append(e.queue, scriptStep{kind: kSwapLimit, arg: dd | kk<<2}, scriptStep{kind: kSwapBack, arg: e.r.Intn(3)})
+	}
+	e.queue = append(e.queue, scriptStep{kind: kSolvency})
+	e.o.Count("script.opening-drain")
+}
